@@ -3,7 +3,18 @@ package harness
 // Reference label model (DESIGN.md §5): two relations between a supplier label v
 // and a parameter label p with Core ⊆ Lib ⊆ Env, and the least-fixpoint derivation.
 
-func implementsI(t int) bool { return t == 3 } // only T3 implements Iface
+func implementsI(t int) bool { return t == 3 } // only T3 implements Iface (and Iface2)
+
+// implements: value type v can be injected where interface type p is required.
+func implements(v, p int) bool {
+	switch p {
+	case TI:
+		return v == 3 || v == TI2
+	case TI2:
+		return v == 3
+	}
+	return false
+}
 
 // Env is the soundness envelope stated by C01: anything the library injects
 // outside it is a violation.
@@ -14,10 +25,7 @@ func Env(v, p Label) bool {
 	if v.T == p.T {
 		return v.Sub == p.Sub || v.Sub == "" || p.Sub == ""
 	}
-	if p.T == TI && implementsI(v.T) {
-		return true
-	}
-	return false
+	return implements(v.T, p.T)
 }
 
 // Core is the set of direct matches the library certainly implements: anything
@@ -34,7 +42,7 @@ func Core(v, p Label) bool {
 		if v.T == p.T {
 			return v.Sub == ""
 		}
-		return p.T == TI && implementsI(v.T)
+		return implements(v.T, p.T)
 	}
 	// typed parameter
 	if v.Name != "" { // named value
@@ -46,7 +54,7 @@ func Core(v, p Label) bool {
 	if v.T == p.T {
 		return v.Sub == p.Sub || v.Sub == "" || p.Sub == ""
 	}
-	return p.T == TI && implementsI(v.T)
+	return implements(v.T, p.T)
 }
 
 type compatFn func(v, p Label) bool
